@@ -42,7 +42,7 @@ B = {
     "plain+gogarble": (None, [], {"GOGARBLE": MOD}, [], MOD, None),
 }
 if tier == "quick":
-    for k in ("seeded+tiny", "seeded+tags", "seeded+edit-leaf", "seeded+rename", "plain+edit-leaf", "plain+gogarble"): B.pop(k)
+    for k in ("seeded+tiny", "seeded+edit-leaf", "plain+edit-leaf"): B.pop(k)
 if tier != "quick":
     B.update({
         "plain+tiny": (None, ["-tiny"], {}, [], MOD, None),
